@@ -235,7 +235,9 @@ class LintedDir:
                         if v_dict.get("fixes", []):
                             # We're changing a violating with fixes, to one without,
                             # so we need to increment the cache value.
-                            self.num_unfixable_lint_errors += 1
+                            # NOTE: Warnings never count as unfixable errors.
+                            if not v_dict.get("warning"):
+                                self.num_unfixable_lint_errors += 1
                             v_dict["fixes"] = []
             # Filter the full versions if present.
             for linted_file in self.files:
